@@ -136,7 +136,10 @@ func c21RefPBKDF(H func([]byte) []byte, u, v int, salt, password []byte, r int, 
 // BMP string of npw symbolic non-NUL ASCII characters (incl. terminator; npw = -1: nil password,
 // no P block), ID symbolic, r iterations, output size n (n > 20 exercises the I_j update through
 // math/big: add, carry out of 2^512, results shorter than 64 bytes).
-func c21PBKDF(hz, sz, npw, r, n int) {
+func c21PBKDF(hz, sz, npw, r, n int) { c21PBKDFSalt(hz, sz, 8, npw, r, n) }
+
+// c21PBKDFSalt is c21PBKDF with a salt of saltLen symbolic bytes.
+func c21PBKDFSalt(hz, sz, saltLen, npw, r, n int) {
 	var seen [][]byte // inputs of the hash calls made by the code under test, in order
 	recording := true
 	h := func(in []byte) []byte {
@@ -150,7 +153,7 @@ func c21PBKDF(hz, sz, npw, r, n int) {
 		verifrt.Assume(out[hz] != 0)
 		return out
 	}
-	salt := verifrt.Bytes(8)
+	salt := verifrt.Bytes(saltLen)
 	for i := 0; i < sz; i++ {
 		salt[i] = 0
 	}
@@ -230,6 +233,48 @@ func Verif_C21_PBKDF1() {
 	n := []int{5, 8, 20}[verifrt.Choose(0, 2)]
 	c21PBKDF(0, 0, verifrt.Choose(-1, 2), verifrt.Choose(1, 3), n)
 }
+
+// Verif_C21_Fill: fillWithRepeats(pattern, 64) against RFC 7292 B.2 steps 2/3 for EVERY pattern
+// length 0..130 (forked) and all pattern bytes: the result has exactly 64*ceil(len/64) bytes
+// (nothing for an empty pattern; no extra block when len is a multiple of 64) and byte i is
+// pattern[i mod len]. Also v = 8 with lengths 0..17.
+func Verif_C21_Fill() {
+	v := 64
+	n := verifrt.Choose(0, 148)
+	if n > 130 {
+		v, n = 8, n-131
+	}
+	p := verifrt.Bytes(n)
+	p0 := append([]byte(nil), p...)
+	out := fillWithRepeats(p, v)
+	want := v * ((n + v - 1) / v)
+	verifrt.Assert(len(out) == want, "fill length = v * ceil(len/v)")
+	if n == 0 {
+		verifrt.Assert(out == nil, "empty pattern => empty string")
+		verifrt.Reach("empty")
+		return
+	}
+	for i := range out {
+		verifrt.Assert(out[i] == p0[i%n], "fill byte i = pattern[i mod len]")
+	}
+	if n%v == 0 {
+		verifrt.Reach("multiple")
+	}
+}
+
+// Verif_C21_PBKDFLongSalt: pbkdf with a salt of exactly 64 and 65 symbolic bytes (first byte
+// non-zero) and a nil password, one block (n = 20), r = 1: the hash input is D | S with |S| = 64
+// resp. 128 (B.2 step 2 at the block-size boundary).
+func Verif_C21_PBKDFLongSalt() {
+	c21PBKDFSalt(0, 0, 64+verifrt.Choose(0, 1), -1, 1, 20)
+}
+
+// Verif_C21_PBKDF2Stale: two blocks (n = 24), r = 1, EMPTY password (BMP 00 00: P is all zero),
+// salt with one leading zero byte, hash output with two leading zero bytes: in the I update the
+// S block loses one leading zero byte and the following P block loses two or more, i.e. the
+// reusable left-padding buffer of step 6C is used twice with a growing pad (stale bytes must be
+// cleared).
+func Verif_C21_PBKDF2Stale() { c21PBKDF(2, 1, 0, 1, 24) }
 
 // Verif_C21_PBKDF2S: two blocks (n = 24), r = 1, nil password (I = S only: one 512-bit update).
 func Verif_C21_PBKDF2S() { c21PBKDF(0, 0, -1, 1, 24) }
